@@ -2,7 +2,7 @@ import FormulaicVerif.Engines.Json
 import FormulaicVerif.Model.BSpline
 import FormulaicVerif.Model.CubicSpline
 /-! Correspondence engine for C12: runs the executable models of `basis_spline` (`op = "bs"`) and
-`cubic_spline` (`op = "cs"`).  Rationals travel as `"p/q"` strings (exact: every float the
+`cubic_spline` (`op = "cs"`), and histories of such uses (`op = "uses"`).  Rationals travel as `"p/q"` strings (exact: every float the
 implementation produces is a dyadic rational). -/
 namespace FormulaicVerif.Engines.C12
 open Lean FormulaicVerif.Model FormulaicVerif.Engines
@@ -130,10 +130,19 @@ def handleCs (j : Json) : Json :=
         | some c => jlist ((CubicSpline.residualQ c Q2).map ratsJ))]
 end cs
 
-def handle (j : Json) : Json :=
+def handleOne (j : Json) : Json :=
   match jstr j "op" with
   | "bs" => handleBs j
   | "cs" => handleCs j
   | o => jerr ("unknown op " ++ o)
+
+/-- `op = "uses"`: a HISTORY of uses of the transforms (several terms of one formula, successive
+model-matrix calls, repeated direct calls) that were all handed the same argument objects.  The
+model of a transform is a function of the arguments the user wrote and of that use's data only, so
+the answer to a history is the list of the independent answers: no use can see an earlier one. -/
+def handle (j : Json) : Json :=
+  match jstr j "op" with
+  | "uses" => Json.mkObj [("uses", jlist ((jarr j "uses").map handleOne))]
+  | _ => handleOne j
 
 end FormulaicVerif.Engines.C12
